@@ -102,6 +102,24 @@ def scenario(kind, n_before, n_away, n_during, new_db_away):
                     for key in sorted(pds[db]):
                         if pds[db][key][2] == "live" and key not in ("$connections", "$$token") and (db, key) not in named:
                             burst_fails.append(Failure("full-sync-burst-misses-key", f"the full resynchronisation burst has no line for {db}/{key} (primary holds {pds[db][key]}); history {hist}"))
+            else:
+                # an INCREMENTAL resynchronisation (since > 0) has a line for every key that was written or removed while the node was away —
+                # in EVERY database (the same key name in two databases is two keys), and for every database created meanwhile
+                named = set(); created = set()
+                for x in o:
+                    m = re.match(r"L \S+ (replicate|replicate-remove|replicate-increment) (\S+) (\S+)", x)
+                    if m: named.add((core.unesc(m.group(2)).decode(), core.unesc(m.group(3)).decode()))
+                    m = re.match(r"L \S+ create-db (\S+)", x)
+                    if m: created.add(core.unesc(m.group(1)).decode())
+                for (when, (db, cmd)) in hist:
+                    if when != "away": continue
+                    w = cmd.split(" ")
+                    # (plain `set` only: it is always accepted and always logged; a versioned write may have been refused)
+                    accepted = any(sl == f"@1 C 1 {cmd}" and any(x == "R ok" for x in so) for sl, so in zip(net.script[:si], net.out[:si]))   # (a permission list set meanwhile may refuse it)
+                    if w[0] == "set" and accepted and len(w) > 1 and (db, w[1]) not in named and db in pds:
+                        burst_fails.append(Failure("incremental-sync-burst-misses-key", f"{cmd!r} on {db} happened while the node was away, the catch-up burst has no line for {db}/{w[1]}; history {hist}"))
+                    if w[0] == "create-db" and db not in created:
+                        burst_fails.append(Failure("incremental-sync-burst-misses-database", f"database {db} was created while the node was away, the catch-up burst has no create-db for it; history {hist}"))
             for x in o:
                 m = re.match(r"L \S+ replicate (\S+) (\S+) (.*)", x)
                 if not m: continue
